@@ -109,6 +109,7 @@ var codecDeps = map[string]codecDep{
 	"C03": {decoded: []string{"Pubrel", "Pingreq", "Disconnect", "Subscribe", "Unsubscribe"},
 		encoded: []string{"Pubrec", "Pubcomp", "Unsuback", "Suback", "Pingresp"}, short: true},
 	"C04": {decoded: []string{"Register", "Subscribe"}, encoded: []string{"Regack", "Suback", "Register"}},
+	"C05": {decoded: []string{"Connect"}, encoded: []string{"Connect"}},
 	"C06": {decoded: []string{"Publish", "Puback", "Pubrec", "Pubrel", "Pubcomp", "Regack", "Register", "Subscribe", "Unsubscribe", "Suback", "Unsuback"}},
 	"C07": {decoded: []string{"Connect", "Disconnect", "Publish", "Pingreq"}, encoded: []string{"Connack"}},
 	"C08": {decoded: []string{"Connect", "Auth"}, encoded: []string{"Connack"}},
